@@ -14,3 +14,4 @@ import SJ.Props.C04
 #print axioms SJ.Props.C04.c04_wf_of_parse_str_finite
 #print axioms SJ.Props.C04.c04_wf_of_parse_str_ap
 #print axioms SJ.Props.C04.c04_reparse_str_partial
+#print axioms SJ.Props.C04.c04_typed_partial
